@@ -257,6 +257,8 @@ class Interp:
             return z3.ToReal(v.t)
         if kind.name == 'optloop' and isinstance(v, VNone):
             return sym.c_none_obj
+        if kind is sym.K_MD and isinstance(v, VNone):
+            return z3.Empty(sym.SeqMdS)     # "no metadata yet" slots: None is modelled as the empty list
         if kind is sym.K_ELEM and isinstance(v, VBool):
             return z3.If(v.t, sym.str_elem('True'), sym.str_elem('False'))
         if isinstance(v, (VSeq, VList)):
@@ -1575,6 +1577,10 @@ class Interp:
             if args and not first:
                 a0 = z3.simplify(self.num(args[0]))
                 if not (z3.is_int_value(a0) and a0.as_long() == -1):
+                    for (ht, hi, hp, he, hs) in self.st.ghost.get('_index_hints', []):
+                        if ht.eq(c.term) and hi.eq(self.num(args[0])):
+                            self.st.set_list_term(recv.loc, z3.Concat(hp, hs))
+                            return c.kind.wrap(he)
                     raise Unsupported('pop(i)')
             h = z3.Const(sym.fresh_name('hd'), c.kind.sort)
             tl = z3.Const(sym.fresh_name('tl'), c.term.sort())
